@@ -606,8 +606,9 @@ impl Rng {
 }
 
 const PATS: &[&str] = &["a", "b", "c", "ab", "abc", "a+", "b+", "[ab]", "[ab]+", "[a-c]+", "é", "[aé]+", "a|ab", "(|a)b", "a*b", "\n", "[a-c\n]", "bc", "ca", "[^a]", "aé", "é+", "x", "[a-cé]+x?",
-    ".", "[^\n]+", "a{2}", "a{1,2}b", "(ab)+", "(a|b)*c", "b?c?a", "€", "[€😀]+", "a{2,}", "(a|)c", "x|\n+"];
-const LAS: &[&str] = &["a", "b", "c", "bc", "b+", "é", "[ab]", "x", "c+", "\n"];
+    ".", "[^\n]+", "a{2}", "a{1,2}b", "(ab)+", "(a|b)*c", "b?c?a", "€", "[€😀]+", "a{2,}", "(a|)c", "x|\n+",
+    "a+b", "a{2,}b", "ca{0,}b", "ab?", "b{0,2}c", "(a|b?)*c", "(a*)+b", "a(|b|c)a", "[ab]{2}", "c(ab)?"];
+const LAS: &[&str] = &["a", "b", "c", "bc", "b+", "é", "[ab]", "x", "c+", "\n", "bc?", "b{1,2}", "ab?", "b|bc", "b*c", "a?b", "(ab)+", "c{2}"];
 const ALPHA: &[char] = &['a', 'b', 'c', 'é', '\n', 'x', 'a', 'b', '€', '😀', 'c', '\n'];
 
 fn gen_input(r: &mut Rng, maxlen: usize) -> String {
